@@ -116,6 +116,10 @@ def index_array(a, idx):
                 out.append(d)
             elif isinstance(d, int) and i.step is None:
                 out.append(len(range(d)[i]))
+            elif i.step is None and i.start is None \
+                    and isinstance(i.stop, str) and isinstance(d, str) \
+                    and d.split("+")[0] == i.stop:
+                out.append(i.stop)       # first block of a concatenation
             elif i.step is None and all(
                     x is None or isinstance(x, int) for x in (i.start, i.stop)):
                 # length of a slice of a symbolic axis: (a*d + b) form
@@ -288,6 +292,7 @@ class Interp:
         self.calls = 0
         self.project = None
         self.rel_prefix = {}
+        self.ctor_classes = {}      # ctor name -> (ClassInfo, unit_ndims)
         # factory helpers of utils/core.py are modelled, not interpreted
         self.factory = {}
         for prefix, t in trees:
@@ -704,6 +709,19 @@ class Interp:
         if name in ("copy", "copy.copy") and args \
                 and isinstance(args[0], AObj):
             return args[0].clone()
+        if self.project is not None and name in self.ctor_classes \
+                and args:
+            a0 = args[0]
+            if isinstance(a0, AObj):
+                o = a0.clone()
+                o.cls = self.ctor_classes[name][0]
+                return o
+            if isinstance(a0, AArr):
+                cls, und = self.ctor_classes[name]
+                return AObj(cls, proj=a0, unit_ndims=und)
+        if name == "utils.kernel" and args and isinstance(args[0], AArr):
+            sh = args[0].shape
+            return AArr(sh[:-2] + (sh[-1], "q"))
         if name == "utils.invert" and args and isinstance(args[0], AArr):
             return args[0]
         if name in ("np.identity", "utils.identity"):
@@ -768,7 +786,7 @@ class Interp:
             ax = _norm_axes(axis, nd)[0]
             return AArr(shp[:ax] + (len(items),) + shp[ax:])
         if name == "np.concatenate":
-            items = args[0]
+            items = list(args[0])
             axis = kw.get("axis", args[1] if len(args) > 1 else 0)
             ax = _norm_axes(axis, len(items[0].shape))[0]
             tot = 0
